@@ -89,7 +89,7 @@
  "name": "unix_set_option_cache",
  "props": ["C17"],
  "level": "U",
- "tier": "wip",
+ "tier": "quick",
  "harness": "h_set_option",
  "enforce": ["unix_set_option"],
  "replace": ["flush_cached_blocks"],
